@@ -24,13 +24,17 @@ def run(ctx):
     else:
         # the last two: one noise step taken from the full invitation alphabet (position of the muc#user
         # payload among the children, jabber:x:conference element, 0-2 invites, password); one stanza
-        # delivered in two pieces (calls / cancellations in between)
+        # delivered in two pieces (calls / cancellations in between); one error reply of every shape other than the
+        # plain well-formed one (no children, no <error/>, foreign namespace, empty, undecodable, ..., whole or in two
+        # pieces), each such script also continued by a second exchange that must succeed
         if quick:
             sets = [('{"r1"}', 6, 4, 0), ('{"r1"}', 4, 3, 1), ('{"r1", "r2"}', 4, 3, 0),
-                    ('{"r1"}', 3, 2, 1, {"invfull": True}), ('{"r1"}', 4, 3, 0, {"split": 1, "cuts": "{1, 2, 3}"})]
+                    ('{"r1"}', 3, 2, 1, {"invfull": True}), ('{"r1"}', 4, 3, 0, {"split": 1, "cuts": "{1, 2, 3}"}),
+                    mc.shaped(4, split=1)]
         else:
             sets = [('{"r1"}', 7, 4, 0), ('{"r1"}', 5, 4, 1), ('{"r1", "r2"}', 5, 4, 0),
-                    ('{"r1"}', 4, 3, 1, {"invfull": True}), ('{"r1"}', 6, 3, 0, {"split": 1, "cuts": "{1, 2, 3}"})]
+                    ('{"r1"}', 4, 3, 1, {"invfull": True}), ('{"r1"}', 6, 3, 0, {"split": 1, "cuts": "{1, 2, 3}"}),
+                    mc.shaped(5, split=1, cuts="{1, 3}")]
         seq = mc.muc_emit(ctx, sets)
         exp = mc.muc_explore_scenarios(ctx.tier)
     files, s1, s2 = [], None, None
